@@ -326,7 +326,10 @@ Qed.
 Lemma setop_gen_nocrash t : setop_gen t <> Crash.
 Proof. destruct t; try discriminate. apply contains_gen_nocrash. Qed.
 Lemma minmax_elem_nocrash t : minmax_elem t <> Crash.
-Proof. destruct t; try apply cmp_stmt_nocrash. cbn. destruct (is_ordered k); discriminate. Qed.
+Proof.
+  destruct t; try apply cmp_stmt_nocrash. unfold minmax_elem.
+  destruct (is_ordered k); [discriminate|apply cmp_stmt_nocrash].
+Qed.
 Lemma minmax_gen_nocrash a b : minmax_gen a b <> Crash.
 Proof.
   unfold minmax_gen. destruct (identical a b); [apply minmax_elem_nocrash|].
